@@ -248,6 +248,18 @@ class Discharger:
                 d = t.hole_def(h)
                 if d is None:
                     return None
+                # a hole whose value is sometimes a lifetime and sometimes something else (`match param { Type(t) => t.ident.., Lifetime(l)
+                # => l.lifetime.. }`) was parsed with one placeholder only: `'a: Trait` is no where-predicate, `T: Trait` is
+                from .c19 import binder_leaves as _bl
+                from ..tmpl import is_lifetime_term as _ilt
+
+                def _lt(x_):
+                    while isinstance(x_, tuple) and len(x_) == 3 and x_[0] == 'mcall' and x_[2] in ('to_token_stream', 'into_token_stream', 'clone', 'to_owned'):
+                        x_ = x_[1]
+                    return _ilt(x_)
+                lv = [_lt(x_) for x_ in _bl(t.hole_term(h))]
+                if any(lv) and not all(lv):
+                    return None
             # a syn `Punctuated` prints its trailing punctuation when it has one (`T: A +`): followed by more tokens of the same list
             # (`#bounds + #trait`) the result is `A + + Trait`, which does not re-parse
             if punctuated_hole_followed(t):
